@@ -180,7 +180,9 @@ def ownership(ctx):
     fb = ctx.fb
     for f in fns(ctx):
         if f.name in ("push_front", "push_back", "emplace_front", "emplace_back") and f.rec == "gmlc::libguarded::rcu_list":
-            from ..rcu import insertion_body
+            from ..rcu import insertion_body, forwards_to_sibling
+            if forwards_to_sibling(fb, f) is not None:
+                continue
             ib = insertion_body(f)
             if ib is None:
                 ctx.unknown("%s: %s: cannot find the node %s allocates" % (rid, f.where, f.name))
